@@ -39,7 +39,8 @@ REQUIRED = ["no_loss", "admitted_by_commit", "only_admitted_delivered", "save_ev
             "vdr_non_db_error_visible_after_one_call", "vdr_db_error_is_retried",
             # deepening round 3 (NutsProofs.Props.C14Vis): a listed failed event stays listed until its completion is recorded (ALL histories), Run leaves parked jobs alone
             "failed_stays_visible_or_completed", "restart_keeps_failed_visible", "restart_leaves_parked_job_alone", "parked_failed_job_stays_listed",
-            "restart_never_calls_parked_job", "fact_run_only_reads_calls_and_reschedules", "fact_threshold_below_fatal_mark"]
+            "restart_never_calls_parked_job", "fact_run_only_reads_calls_and_reschedules", "fact_threshold_below_fatal_mark",
+            "calls_bounded_across_restarts", "runCost_le"]
 
 
 def sel(filters, tx, ty):
@@ -115,6 +116,7 @@ def oracle(h, threshold):
     seen = set()
     ncalls = Counter()  # (s, r) -> receiver calls that reached the receiver
     any_restart = False
+    n_restarts = 0
 
     def report(sig, text, i):
         if sig not in seen:
@@ -235,6 +237,15 @@ def oracle(h, threshold):
             for (s, r), n in sorted(ncalls.items()):
                 if s < len(subs) and typed(subs[s]["filters"]) and n > MAX_RETRIES:
                     report("C14:calls-exceed-retry-budget", f"subscriber {subs[s]['name']} was called {n} times for ref {r} in one run of the node (budget {MAX_RETRIES})", i)
+        # --- with restarts: at most one budget per run of the node (calls_bounded_across_restarts: Run replays a job once and
+        #     starts at most one loop of maxRetries - Retries - 1 attempts for it)
+        if kind == "restart":
+            n_restarts += 1
+        if kind == "end" and any_restart:
+            for (s, r), n in sorted(ncalls.items()):
+                if s < len(subs) and typed(subs[s]["filters"]) and n > MAX_RETRIES * (1 + n_restarts):
+                    report("C14:calls-exceed-retry-budget", f"subscriber {subs[s]['name']} was called {n} times for ref {r} over {n_restarts} start(s) of the node "
+                           f"(budget {MAX_RETRIES} per run of the node: {MAX_RETRIES * (1 + n_restarts)})", i)
         # --- end of history: delivered at least once; what is still on the shelf is visible as failed
         if kind == "end" and not last_restart_stopped and not tasks:
             for (r, ty), _ in admitted.items():
